@@ -29,7 +29,7 @@ def r19a(ctx, P):
     ctx.rule(rid, "FLOW (window containment): in rescore_hits every index handed to Vec::get_mut / Vec::remove / IndexMut on the hit "
                   "list derives from `Iterator::enumerate` over `Iterator::take(.., window)` of that list, where `window` derives from "
                   "RescoreRequest.window_size; no other access modifies the list (whole-list sorts, retain, truncate, swap, ...)")
-    f = P.fn(RESCORE)
+    f = P.inlined(RESCORE, depth=1)        # grouping / removal helpers of the file are read in place
     if not ctx.anchor(rid, f, "IndexReader::rescore_hits"):
         return None
     ctx.saw(f)
@@ -56,6 +56,13 @@ def r19a(ctx, P):
             takes = [x[2] for x in srcs if x[0] == "call" and callee_of(x[2]).endswith("Iterator::take")]
             enum = any(x[0] == "call" and callee_of(x[2]).endswith("Iterator::enumerate") for x in srcs)
             bounded = any("window_size" in slc.fields(tk["args"][1]) for tk in takes)
+            # `hits[..window].iter().enumerate()`: the enumerated slice is cut by a range whose end derives from the window
+            for x in srcs:
+                if x[0] == "agg" and (x[3].get("adt") or "").endswith(("ops::range::RangeTo", "ops::range::Range")):
+                    end = x[3]["ops"][-1]
+                    start_ok = x[3]["adt"].endswith("RangeTo") or (op_const(x[3]["ops"][0]) or {}).get("int") == 0
+                    if start_ok and "window_size" in slc.fields(end):
+                        bounded = True
             ok = enum and bounded
             ctx.ob(rid, "%s:rescore_hits:%s-index-inside-window" % (rid, tail), ok,
                    "%s at %s uses an index enumerated from the first `window` hits" % (tail, Site(f, b).loc()) if ok else
@@ -77,7 +84,7 @@ def r19b(ctx, P):
                   "window bound (window_size), and when an element of the list can be removed before the sort, `end` is reduced by the "
                   "number of removed elements (a subtraction fed by the length of the removal list) and does not depend on a "
                   "`hits.len()` evaluated after a removal")
-    f = P.fn(RESCORE)
+    f = P.inlined(RESCORE, depth=1)
     if f is None:
         return
     hp = _hits_param(f)
@@ -182,7 +189,7 @@ def r19c(ctx, P):
            "Total/Sum add, Multiply multiplies, Max/Min take the maximum/minimum of (original, rescore)" if not bad else
            "combine_rescore_scores deviates from the documented modes: %s" % "; ".join(bad), Site(f, b).loc())
     # the call site
-    g = P.fn(RESCORE)
+    g = P.inlined(RESCORE, depth=1)
     if g is not None:
         sl = Slice(g, through_all_calls=True)
         sl0 = Slice(g)
@@ -239,10 +246,15 @@ def r19d(ctx, P):
                   "field, seg) is called with a `seg` that is bound by a loop over segments, the cache it fills is created inside that "
                   "same loop iteration")
     n = 0
-    for q, f in sorted(P.fns.items()):
-        if f.crate != "searchlite_core" or is_test_or_bench(f):
-            continue
-        calls = [(b, t) for b, t in f.calls() if callee_of(t) == "searchlite_core::api::reader::field_lengths_for"]
+    FLF = "searchlite_core::api::reader::field_lengths_for"
+    direct = {q for q, f in P.fns.items() if f.crate == "searchlite_core" and not is_test_or_bench(f) and
+              any(callee_of(t) == FLF for b, t in f.calls())}
+    # a per-segment helper (`build_terms(seg, ..)` creating its own cache) is read inside the loop that calls it
+    via = {q for q, f in P.fns.items() if f.crate == "searchlite_core" and not is_test_or_bench(f) and f.kind != "closure" and
+           any(callee_of(t) in direct and P.fns[callee_of(t)].vis != "Public" and P.fns[callee_of(t)].file == f.file for b, t in f.calls())}
+    for q in sorted(direct | via):
+        f = P.inlined(q, depth=1) if q in via else P.fns[q]
+        calls = [(b, t) for b, t in f.calls() if callee_of(t) == FLF]
         if not calls:
             continue
         loops = natural_loops(f)
